@@ -336,7 +336,6 @@ builtin_exec(spif_charptr_t param)
     REQUIRE_RVAL(!SPIF_PTR_ISNULL(param), (spif_charptr_t) NULL);
     D_PARSE(("builtin_exec(%s) called\n", NONULL(param)));
 
-    Command = (spif_charptr_t) MALLOC(CONFIG_BUFF);
     strcpy((char *) OutFile, "Eterm-exec-");
     fd = spiftool_temp_file(OutFile, sizeof(OutFile));
     if ((fd < 0) || fchmod(fd, (S_IRUSR | S_IWUSR | S_IRGRP | S_IROTH))) {
@@ -350,6 +349,7 @@ builtin_exec(spif_charptr_t param)
                            file_peek_path(), file_peek_line());
         return ((spif_charptr_t) NULL);
     }
+    Command = (spif_charptr_t) MALLOC(CONFIG_BUFF);
     strcpy((char *) Command, (char *) param);
     strcat((char *) Command, " >");
     strcat((char *) Command, (char *) OutFile);
